@@ -30,8 +30,18 @@ class CXX2C(Emitter, ExprMixin, LibMixin, StmtMixin):
     def find_functions(self, qn):
         """all function-like decls with a body whose qualified name matches (suffix match)"""
         out = []
+        inst = None
+        m_ = re.fullmatch(r'(.*<.*>)::([^:<>]+)', qn)
+        if m_:
+            # a member of ONE instantiation of a class template: 'Class<Args>::method'
+            keys = [k for k in self.records if k == m_.group(1) or k.endswith('::' + m_.group(1))]
+            if len(keys) != 1: raise Unsupported('class template instantiation %s not found' % m_.group(1))
+            inst = self.records[keys[0]]['id']; qn = re.sub(r'<.*>', '', m_.group(1)) + '::' + m_.group(2)
         for i, n in self.qname.items():
             d = self.byid[i]
+            if inst is not None:
+                ow_ = self.owner_record(d) if d.get('kind') != 'FunctionDecl' else None
+                if ow_ is None or ow_.get('id') != inst: continue
             if d.get('kind') not in ('FunctionDecl', 'CXXMethodDecl', 'CXXConstructorDecl', 'CXXConversionDecl'): continue
             if d.get('isImplicit'): continue
             if d.get('kind') != 'FunctionDecl':
@@ -77,6 +87,8 @@ class CXX2C(Emitter, ExprMixin, LibMixin, StmtMixin):
                 r = self.find_record(k)
                 if r is not None: self.ty(self.qname.get(r['id'], k))
             except Unsupported: pass
+        for q in self.u.get('force_types', []):
+            self.ty(q)                      # types the spec files use in ghost state, whether or not the extracted code does
         done = set()
         while self.wanted or self.pending_defaults:
             while self.wanted:
